@@ -1,6 +1,10 @@
 import PPLV.WR.Trans2LatProofsMapExact
 import PPLV.WR.Trans2LatProofsRemoveExact
 import PPLV.WR.Trans2LatProofsDiff
+import PPLV.WR.TransOct2LatProofsExact2Remove
+import PPLV.WR.TransOct2LatProofsExact2FoldC
+import PPLV.WR.TransOct2LatProofsMapExact
+import PPLV.WR.Trans2LatProofsFoldExact
 import Mathlib.Tactic.IntervalCases
 import Mathlib.Tactic.NormNum
 /-!
@@ -22,10 +26,12 @@ The only hypotheses besides the preconditions of the C++ call (`var < n`, ids of
 the class invariant `+∞` on the main diagonal (`DBM n` / `bdsLatDiag`), where a cell of the diagonal is
 copied or read.
 
-NOT proved (see the comments at `oct_upper_bound_exact_partial`): the exactness statements of the octagon
-operations that need "the exact strong closure is canonical" (`oct_upper_bound_exact`, `oct_remove_dims_exact`,
-`oct_remove_higher_exact`, `oct_fold_exact`), `bds_fold_exact`, `oct_map_dims_exact`.  No model of
-`time_elapse_assign` (round trip through `C_Polyhedron`).
+Octagon exactness that needs the closure (`oct_upper_bound_exact`, `oct_remove_dims_exact`,
+`oct_remove_higher_exact`, `oct_fold_exact`) rests on `OctM.strongClosure_isStronglyClosed` (the exact strong closure is strongly
+closed) and `OctM.IsStronglyClosed.exists_point_ge` (a strongly closed matrix over `ℚ` is tight).
+`bds_fold_exact` (least shape containing every folded piece; `DBM.closure_tight`) and `oct_map_dims_exact` (total injective map, no
+closure: every bound type) are at the end of the file.  No model of `time_elapse_assign`
+(round trip through `C_Polyhedron`).
 -/
 set_option linter.unusedVariables false
 namespace C03
@@ -467,16 +473,84 @@ example : ∃ r, octLatFold Rnd.ceil 2 false latO1.e [1] 0 = some r ∧ r.dim = 
   oct_fold_sound _ Rnd.ceil_sound 2 false _ [1] 0 (by simp) (by simp) (by simp) (by norm_num) latP 1 latP_memO1
     (Or.inr (by simp))
 
-/-- `upper_bound_assign` is the LEAST octagon — `_partial`: proved for two arguments that are marked
-strongly closed and whose matrices are canonical (`octLatCanon`: the shape has a point and every stored
-off-diagonal cell is the least bound of its shape).  MISSING for the full statement (flags clear, `Rnd.exact`):
-that the matrix left by `strong_closure_assign` in exact arithmetic satisfies `octLatCanon` (the octagon
-analogue of `DBM.closure_tight`; the tree has it for bounded-difference shapes only). -/
+/-- `upper_bound_assign`, exact arithmetic, closure run inside (flags clear): the result is the LEAST octagon
+containing both arguments: it is contained in `γ d` for every matrix `d` whose octagon contains both -/
+theorem oct_upper_bound_exact {n : ℕ} (m1 m2 : OctM n) :
+    ∃ r, octLatUpperBound Rnd.exact n false m1.e false m2.e = some r ∧ r.dim = n ∧
+      ∀ d : Mat, γO n m1.e ⊆ γO n d → γO n m2.e ⊆ γO n d → γO n r.m ⊆ γO n d :=
+  octLatUpperBound_least n false false m1.e m2.e m1.diag m2.diag (fun h => by cases h) (fun h => by cases h)
+
+/-- the same with arbitrary flags: a set closed flag has to mean what it says (`octLatCanon`: the shape has a
+point and every stored off-diagonal cell is the least bound of its shape; every strongly closed matrix is:
+`octLatCanon_of_strong`) -/
+theorem oct_upper_bound_exact_flags {n : ℕ} (c1 c2 : Bool) (m1 m2 : OctM n)
+    (hc1 : c1 = true → octLatCanon n m1.e) (hc2 : c2 = true → octLatCanon n m2.e) :
+    ∃ r, octLatUpperBound Rnd.exact n c1 m1.e c2 m2.e = some r ∧ r.dim = n ∧
+      ∀ d : Mat, γO n m1.e ⊆ γO n d → γO n m2.e ⊆ γO n d → γO n r.m ⊆ γO n d :=
+  octLatUpperBound_least n c1 c2 m1.e m2.e m1.diag m2.diag hc1 hc2
+
+example : ∃ r, octLatUpperBound Rnd.exact 2 false latO1.e false latO2.e = some r ∧ r.dim = 2 ∧
+    ∀ d : Mat, γO 2 latO1.e ⊆ γO 2 d → γO 2 latO2.e ⊆ γO 2 d → γO 2 r.m ⊆ γO 2 d :=
+  oct_upper_bound_exact latO1 latO2
+
+/-- every rounding, both arguments marked strongly closed and canonical (subsumed for `Rnd.exact` by
+`oct_upper_bound_exact_flags`; kept because it holds for EVERY bound type: no closure is run) -/
 theorem oct_upper_bound_exact_partial (R : Rnd) (n : ℕ) (m1 m2 : Mat) (hc1 : octLatCanon n m1)
     (hc2 : octLatCanon n m2) :
     ∃ r, octLatUpperBound R n true m1 true m2 = some r ∧ r.dim = n ∧ r.closed = true ∧
       ∀ d : Mat, γO n m1 ⊆ γO n d → γO n m2 ⊆ γO n d → γO n r.m ⊆ γO n d :=
   octLatUpperBound_least_closed R n m1 m2 hc1 hc2
+
+/-- `remove_space_dimensions(vars)`, exact arithmetic, closure run inside (flag clear): the result is EXACTLY
+the projection — every point of the result is the dropped image of a point of the shape, and an empty answer
+means an empty shape -/
+theorem oct_remove_dims_exact {n : ℕ} (m : OctM n) (vars : List ℕ) (hne : vars ≠ []) (hvs : ∀ v ∈ vars, v < n) :
+    match octLatRemoveDims Rnd.exact n false m.e vars with
+    | none => γO n m.e = ∅
+    | some r => r.dim = n - vars.length ∧
+        ∀ z, z ∈ γO r.dim r.m → ∃ x, x ∈ γO n m.e ∧ ∀ i, i < r.dim → octLatDropPoint n vars x i = z i :=
+  octLatRemoveDims_exact n m.e m.diag vars hne hvs
+
+example : match octLatRemoveDims Rnd.exact 2 false latO1.e [0] with
+    | none => γO 2 latO1.e = ∅
+    | some r => r.dim = 1 ∧
+        ∀ z, z ∈ γO r.dim r.m → ∃ x, x ∈ γO 2 latO1.e ∧ ∀ i, i < r.dim → octLatDropPoint 2 [0] x i = z i :=
+  oct_remove_dims_exact latO1 [0] (by simp) (by simp)
+
+/-- `remove_higher_space_dimensions(newDim)`, exact arithmetic, closure run inside: exact projection -/
+theorem oct_remove_higher_exact {n : ℕ} (m : OctM n) (newDim : ℕ) (hnd : newDim < n) :
+    match octLatRemoveHigher Rnd.exact n false m.e newDim with
+    | none => γO n m.e = ∅
+    | some r => r.dim = newDim ∧
+        ∀ z, z ∈ γO newDim r.m → ∃ x, x ∈ γO n m.e ∧ ∀ i, i < newDim → x i = z i :=
+  octLatRemoveHigher_exact n m.e m.diag newDim hnd
+
+example : match octLatRemoveHigher Rnd.exact 2 false latO1.e 1 with
+    | none => γO 2 latO1.e = ∅
+    | some r => r.dim = 1 ∧
+        ∀ z, z ∈ γO 1 r.m → ∃ x, x ∈ γO 2 latO1.e ∧ ∀ i, i < 1 → x i = z i :=
+  oct_remove_higher_exact latO1 1 (by norm_num)
+
+/-- `fold_space_dimensions(vars, dest)` (`vars` ascending, `dest ∉ vars`), exact arithmetic, closure run inside
+(flag clear): the octagon hull of the folded pieces is not their union, the exact statement is that the result is
+the LEAST octagon containing every piece — for every matrix `d` of the result dimension whose octagon contains
+all the pieces `octLatDropPoint n vars (upd x dest (x w))` (`x` a point of the shape, `w ∈ vars ∪ {dest}`),
+`γ result ⊆ γ d`; an empty answer means an empty shape.  (With `oct_fold_sound`: the result contains the pieces.) -/
+theorem oct_fold_exact {n : ℕ} (m : OctM n) (vars : List ℕ) (dest : ℕ) (hne : vars ≠ [])
+    (hsorted : vars.Pairwise (· < ·)) (hvs : ∀ v ∈ vars, v < n) (hdest : dest < n) (hdv : dest ∉ vars) :
+    match octLatFold Rnd.exact n false m.e vars dest with
+    | none => γO n m.e = ∅
+    | some r => r.dim = n - vars.length ∧
+        ∀ d : Mat, (∀ x w, x ∈ γO n m.e → (w = dest ∨ w ∈ vars) →
+            octLatDropPoint n vars (upd x dest (x w)) ∈ γO r.dim d) → γO r.dim r.m ⊆ γO r.dim d :=
+  octLatFold_exact n m.e m.diag vars dest hne hsorted hvs hdest hdv
+
+example : match octLatFold Rnd.exact 2 false latO1.e [1] 0 with
+    | none => γO 2 latO1.e = ∅
+    | some r => r.dim = 1 ∧
+        ∀ d : Mat, (∀ x w, x ∈ γO 2 latO1.e → (w = 0 ∨ w ∈ [1]) →
+            octLatDropPoint 2 [1] (upd x 0 (x w)) ∈ γO r.dim d) → γO r.dim r.m ⊆ γO r.dim d :=
+  oct_fold_exact latO1 [1] 0 (by simp) (by simp) (by simp) (by norm_num) (by simp)
 
 /-- the 0-dimensional octagon is canonical -/
 example : octLatCanon 0 latO1.e :=
@@ -504,5 +578,53 @@ example : ∃ r, bdsLatDifference Rnd.ceil 2 false latM1.e false latM2.e false [
     latP ∈ γB 2 r.m :=
   bds_difference_pieces_sound _ Rnd.ceil_sound 2 (by norm_num) false false _ _ _ latP latP latM1.e latP
     latP_mem1 latP_mem2 (by simp) latP_mem1
+
+/-! ## `oct_map_dims_exact`, `bds_fold_exact` (proofs: `TransOct2LatProofsMapExact.lean`, `Trans2LatProofsFoldExact.lean`) -/
+
+/-- `map_space_dimensions(pfunc)` for a total injective `pfunc` (`img i` the image of `Variable(i)`) that
+does not shrink the space, i.e. when the code runs no closure: exact for EVERY bound type and EVERY matrix
+(no hypothesis on the diagonal: the octagon loop nest copies the diagonal cells too) -/
+theorem oct_map_dims_exact (R : Rnd) (n : ℕ) (c : Bool) (m : Mat) (pf : List (Option ℕ)) (img : ℕ → ℕ)
+    (himg : ∀ i, i < n → latMaps pf i = some (img i)) (hinj : latInjective pf n)
+    (hns : ¬ latMaxInCodomain pf n + 1 < n) :
+    ∃ r, octLatMapDims R n c m pf = some r ∧ r.dim = latMapNewDim pf n ∧
+      ∀ y, y ∈ γO r.dim r.m ↔ (fun i => y (img i)) ∈ γO n m :=
+  octLatMapDims_exact R n c m pf img himg hinj hns
+
+example : ∃ r, octLatMapDims Rnd.ceil 2 false latO1.e [some 1, some 0] = some r ∧
+    r.dim = latMapNewDim [some 1, some 0] 2 ∧
+    ∀ y, y ∈ γO r.dim r.m ↔ (fun i => y ((fun i => if i = 0 then 1 else 0) i)) ∈ γO 2 latO1.e :=
+  oct_map_dims_exact _ 2 false latO1.e _ (fun i => if i = 0 then 1 else 0)
+    (by intro i hi; interval_cases i <;> simp [latMaps])
+    (by intro i j a hi hj h1 h2
+        interval_cases i <;> interval_cases j <;> simp [latMaps] at h1 h2 <;> omega)
+    (by decide)
+
+/-- `fold_space_dimensions(vars, dest)`, exact arithmetic, closure run inside (flag clear), non-empty shape:
+the result is the LEAST bounded-difference shape containing every folded piece — it is contained in `γ d`
+for every matrix `d` whose shape contains, for every point `x` and every `w ∈ vars ∪ {dest}`, the point
+obtained by moving `x_w` to `dest` and dropping the coordinates `vars`.  `vars` ascending with ids `< n` (as
+`Variables_Set` iterates); the other preconditions of the call (`dest < n`, `dest ∉ vars`) are not needed. -/
+theorem bds_fold_exact {n : ℕ} (m : DBM n) (vars : List ℕ) (dest : ℕ) (hne : vars ≠ [])
+    (hsorted : vars.Pairwise (· < ·)) (hvs : ∀ v ∈ vars, v < n) (hq : ∃ q, q ∈ γB n m.e) :
+    ∃ r, bdsLatFold Rnd.exact n false m.e vars dest = some r ∧ r.dim = n - vars.length ∧
+      ∀ d : Mat, (∀ x, x ∈ γB n m.e → ∀ w, (w = dest ∨ w ∈ vars) →
+          bdsLatDropPoint n vars (upd x dest (x w)) ∈ γB r.dim d) → γB r.dim r.m ⊆ γB r.dim d :=
+  bdsLatFold_exact n false m.e m.diag (fun h => by cases h) hq vars dest hne hsorted hvs
+
+/-- the same with an arbitrary flag: a set closed flag has to mean what it says (`bdsLatCanon`) -/
+theorem bds_fold_exact_flags {n : ℕ} (c : Bool) (m : DBM n) (hc : c = true → bdsLatCanon n m.e)
+    (vars : List ℕ) (dest : ℕ) (hne : vars ≠ [])
+    (hsorted : vars.Pairwise (· < ·)) (hvs : ∀ v ∈ vars, v < n) (hq : ∃ q, q ∈ γB n m.e) :
+    ∃ r, bdsLatFold Rnd.exact n c m.e vars dest = some r ∧ r.dim = n - vars.length ∧
+      ∀ d : Mat, (∀ x, x ∈ γB n m.e → ∀ w, (w = dest ∨ w ∈ vars) →
+          bdsLatDropPoint n vars (upd x dest (x w)) ∈ γB r.dim d) → γB r.dim r.m ⊆ γB r.dim d :=
+  bdsLatFold_exact n c m.e m.diag hc hq vars dest hne hsorted hvs
+
+/-- folding `x₁` into `x₀` on `latM1` -/
+example : ∃ r, bdsLatFold Rnd.exact 2 false latM1.e [1] 0 = some r ∧ r.dim = 2 - [1].length ∧
+    ∀ d : Mat, (∀ x, x ∈ γB 2 latM1.e → ∀ w, (w = 0 ∨ w ∈ [1]) →
+        bdsLatDropPoint 2 [1] (upd x 0 (x w)) ∈ γB r.dim d) → γB r.dim r.m ⊆ γB r.dim d :=
+  bds_fold_exact latM1 [1] 0 (by simp) (by simp) (by simp) ⟨latP, latP_mem1⟩
 
 end C03
